@@ -73,7 +73,33 @@ def _case(draw, tier):
     else:
         mesh = meshgen.latlon_mesh(draw(st.integers(11, 18)), draw(st.integers(5, 8)), draw(sampled_from([0.0, 7.5, 33.0, 180.0])), poles=False)
         mesh["family"] = "latlon-band"
-    return {"mesh": _planar_safe(mesh), "steps": draw(st.lists(_step(), min_size=1, max_size=6)), "radius": draw(sampled_from([None, None, None, 6371229.0]))}
+    steps = [draw(_step())]
+    for _ in range(draw(st.integers(0, 5))):
+        if draw(st.booleans()):
+            # near-repeat: an earlier conversion again with one argument changed (the histories in which a cache
+            # answers a call it should not, or a cached object is written to)
+            base = dict(steps[draw(st.integers(0, len(steps) - 1))])
+            what = draw(sampled_from(["cache", "cache", "cache", "override", "var", "var", "call", "call", "engine", "periodic", "proj", "same"]))
+            if what == "cache":
+                base["cache"] = not base["cache"]
+            elif what == "override":
+                base["override"] = not base["override"]
+            elif what == "var":
+                base["var"] = 1 - base["var"]
+            elif what == "call":
+                base["call"] = draw(sampled_from(CALLS))
+            elif what == "engine":
+                base["engine"] = "geopandas" if base["engine"] == "spatialpandas" else "spatialpandas"
+            elif what == "periodic":
+                base["periodic"] = draw(sampled_from(PERIODIC))
+                if base["periodic"] == "split":
+                    base["proj"] = ["none"]
+            elif what == "proj" and base["periodic"] != "split":
+                base["proj"] = draw(_proj())
+            steps.append(base)
+        else:
+            steps.append(draw(_step()))
+    return {"mesh": _planar_safe(mesh), "steps": steps, "radius": draw(sampled_from([None, None, None, 6371229.0]))}
 
 
 def _planar_safe(mesh):
@@ -529,6 +555,24 @@ def run_case(case, ctx):
             if not same_snapshot(snap0, snapshot(kind, o)):
                 fails.append(Failure("returned_objects_stable", site, "earlier-object-changed", f"step {si}: the {kind} object returned at step {sj} changed after this call"))
                 return fails
+    # ---- final sweep: the plain frame of the grid, asked once more with every argument set the history used,
+    # is what those arguments alone determine (in particular it carries no data column left by an earlier call)
+    seen_args = []
+    for step in case["steps"]:
+        if "gdf" in step["call"]:
+            key = (step["periodic"], step["engine"], tuple(step["proj"]))
+            if key not in seen_args:
+                seen_args.append(key)
+    for per, engine, pdesc in seen_args:
+        proj, lon0 = _projection(list(pdesc))
+        ctx.ev("depends_only_on_args")
+        obj = g.to_geodataframe(periodic_elements=per, projection=proj, engine=engine)
+        if list(obj.columns) != ["geometry"]:
+            fails.append(Failure("depends_only_on_args", f"grid_gdf:{per}:{pdesc[0]}:{engine}:final-sweep", "columns", f"after the history {[s_['call'] + ('' if s_['cache'] else ':nocache') for s_ in case['steps']]} Grid.to_geodataframe has columns {list(obj.columns)}"))
+            return fails
+        st_ = {"call": "grid_gdf", "periodic": per, "engine": engine, "proj": list(pdesc), "cache": True, "override": False, "var": 0}
+        if not judge_rows([_geom_parts(gm) for gm in obj["geometry"]], st_, f"grid_gdf:{per}:{pdesc[0]}:{engine}:final-sweep", len(case["steps"]), values=None, var=None):
+            return fails
     ctx.ev("antimeridian_set")
     am0, _ = _am_faces(mesh, 0.0)
     got_am = sorted(int(i) for i in np.atleast_1d(g.antimeridian_face_indices))
